@@ -107,8 +107,19 @@ def filter_params(kwargs):
     }
 
 
+def _safe(f):
+    try:
+        return f()
+    except Exception as e:  # noqa -- an unreadable field is part of the digest, not a reason to stop judging the run
+        return ("unreadable", type(e).__name__)
+
+
 def obj_digest(obj):
     """Value digest of a DynamicObject for mutation checks (no identity)."""
+    return _safe(lambda: _obj_digest(obj))
+
+
+def _obj_digest(obj):
     vis = obj.visibility
     if is_2d(obj):
         return (
